@@ -91,15 +91,18 @@ def derive(src_text, annotated_text):
                 raise ValueError('overlay would rewrite source line /%s/ -> /%s/' % (L, bn[j1:j2][:3]))
             # find the transformed header in b[jpos:j2]
             found = None
+            plain = _norm(_loop_header(a[idx], None))
+            try:
+                pat = re.compile('^' + re.escape(_norm(_loop_header(a[idx], 'ITNAMEPLACEHOLDER'))).replace('ITNAMEPLACEHOLDER', r'(\w+)') + '$')
+            except ValueError:
+                pat = None
             for jj in range(jpos, j2):
-                for it in (None, 'it', 'it2', 'it3', 'it4', 'itc'):
-                    try:
-                        if _norm(_loop_header(a[idx], it)) == bn[jj]:
-                            found = (jj, it)
-                            break
-                    except ValueError:
-                        pass
-                if found:
+                if bn[jj] == plain:
+                    found = (jj, None)
+                    break
+                m = pat.match(bn[jj]) if pat else None
+                if m:
+                    found = (jj, m.group(1))
                     break
             if not found:
                 raise ValueError('loop header /%s/ not found in annotated block' % L)
